@@ -329,3 +329,30 @@ def r6(cx):
                 cx.passed(ck, "merge-under-lease", [b.sp(m)])
             else:
                 cx.violation(ck, "merge-under-lease", "%s: chunks are merged without holding a lease on that group (two compactors can merge the same sources)" % b.sp(m), [b.sp(m)])
+
+
+@rule("C03", "R8", "groups are the catalog's candidate groups, not thinned by lease state: what compact_l0 / compact_level lease, merge and swap derives from get_l0_candidates / "
+      "get_level_candidates alone; nothing that reads the lease table (load_leases) shapes a group - an in-flight merged chunk is registered unleased (finding R7) and is safe from other "
+      "compactors only because it is always grouped with its leased sources")
+def r8(cx):
+    CAND = {MC + "get_l0_candidates", MC + "get_level_candidates"}
+    lease_readers = cx.prog.may_reach({MC + "load_leases"}, within_prefix="compactor::")
+    for fn in COMPACT_FNS:
+        ck, b = cx.need_body(fn)
+        acq = M.find_calls(b, lambda c: c == MC + "acquire_lease")
+        if not cx.floor("acquire_lease in %s" % fn.rsplit("::", 1)[1], len(acq), 1, ck):
+            continue
+        for a in acq:
+            o = M.operand_origins(b, b.term(a)["args"][2], at=(a, M.T))
+            calls = {x[1][1] for x in o if x[0] == "call"}
+            direct = MC + "load_leases" in calls
+            via = sorted(c for c in calls if c in lease_readers or named_parent(c) in lease_readers)
+            other = sorted(c for c in calls - CAND if c in cx.prog.calls and c not in via)
+            if not (calls & CAND):
+                cx.violation(ck, "groups-from-catalog-candidates", "%s: the chunk group being leased does not come from get_l0_candidates / get_level_candidates" % b.sp(a), [b.sp(a)])
+            elif direct or via:
+                cx.violation(ck, "groups-from-catalog-candidates", "%s: the group being leased is shaped by the lease table (%s): chunks under lease are thinned out of candidate groups, so another "
+                             "compactor's in-flight merged chunk - registered at level 0 and not leased - can be grouped without its leased sources, merged and swapped away; the first "
+                             "compactor's swap then fails and its sources' rows exist twice" % (b.sp(a), ", ".join(via) or "load_leases"), [b.sp(a)])
+            else:
+                cx.passed(ck, "groups-from-catalog-candidates", [b.sp(a)], ("also shaped by %s (does not read leases)" % other) if other else None)
